@@ -12,6 +12,7 @@ mod model;
 mod mon;
 mod panichook;
 mod props_engine;
+mod real;
 mod runner;
 mod sim;
 
@@ -89,6 +90,7 @@ fn main() {
         "C10" => run_property(&props_engine::c10(), &opts),
         "C11" => run_property(&props_engine::c11(), &opts),
         "C12" => run_property(&clientsim::C12, &opts),
+        "C13" => run_property(&real::C13, &opts),
         "C14" => run_property(&faithful::C14, &opts),
         "C15" => run_property(&props_engine::c15(), &opts),
         "C16" => run_property(&c16::C16, &opts),
